@@ -196,7 +196,7 @@ func GenWorld(t *rapid.T, pf Profile) *World {
 func genMutations(t *rapid.T, pf Profile, w *World) {
 	kinds := pf.MutationKinds
 	if len(kinds) == 0 {
-		kinds = []string{"pc-set", "pg-priorityclass", "queue-gpu", "node-label", "node-unschedulable", "node-cpu", "node-gpus", "pod-finish", "pg-queue"}
+		kinds = []string{"pc-set", "pg-priorityclass", "queue-gpu", "node-label", "node-unschedulable", "node-cpu", "node-gpus", "pod-finish", "pg-queue", "pg-minmember", "pod-replace"}
 	}
 	allowed := map[string]bool{}
 	for _, k := range kinds {
@@ -309,6 +309,37 @@ func genMutations(t *rapid.T, pf Profile, w *World) {
 					continue // only workloads that have not started are moved (the queue of a started workload is history)
 				}
 				m = Mutation{Kind: kind, Target: g.Name, Value: leaves[uniform(t, len(leaves), "mutLeaf")]}
+			case "pod-replace":
+				var cands []string
+				for _, g := range w.Groups {
+					for _, p := range g.Pods {
+						if len(p.Claims) == 0 && (p.State == Running || p.State == Pending) {
+							cands = append(cands, p.Name)
+						}
+					}
+				}
+				if len(cands) == 0 {
+					continue
+				}
+				m = Mutation{Kind: kind, Target: cands[uniform(t, len(cands), "mutReplace")], Value: strconv.Itoa(pickInt(t, "mutReplaceCpu", 100, 1000, 3000, 6000, 12000))}
+			case "pg-minmember":
+				// the owner of a workload that has not started changes how many pods it needs at least
+				var cands []*Group
+				for gi := range w.Groups {
+					g := &w.Groups[gi]
+					pendingOnly := len(g.SubGroups) == 0 && len(g.Pods) >= 2
+					for _, p := range g.Pods {
+						pendingOnly = pendingOnly && p.State == Pending
+					}
+					if pendingOnly {
+						cands = append(cands, g)
+					}
+				}
+				if len(cands) == 0 {
+					continue
+				}
+				g := cands[uniform(t, len(cands), "mutGroupMin")]
+				m = Mutation{Kind: kind, Target: g.Name, Value: strconv.Itoa(between(t, 1, len(g.Pods), "mutMin"))}
 			case "node-unschedulable":
 				n := w.Nodes[uniform(t, len(w.Nodes), "mutNode2")]
 				// flips relative to the state reached so far
